@@ -95,5 +95,49 @@ example : let s := run 4 4 (stages 4) (init 1) (twoResponses ++ [.tick, .tick])
 example : (runStages (stages 4) (run 4 4 (stages 4) (init 1) (twoResponses ++ [.tick])).core).2 = false := by decide
 
 end Drv
+/-! ### a memory-copy command whose flush response arrives last never completes (defect, not repaired) -/
+namespace Copy
+
+/-- full statement: once every request of a running memory-copy command has been answered — in
+    whatever order — the command has been dequeued -/
+def memcopy_completes_full : Prop :=
+  ∀ (nf nc : Nat) (o : List RKind), 0 < nc → validOrder nf nc o → (run nf nc o).queued = false
+
+/-- **Refuted on the current code.** 2 GPUs (one `FlushReq` each), one copy request; responses in
+    the order flush, copy, flush: `processFlushReturn` only removes the request, so after the last
+    response the command is still queued with `IsRunning` set — the driver sleeps and every
+    `DrainCommandQueue` on that queue waits forever. Reproduced on the real `Driver.Tick`
+    (`harness/c12_deep.go`, oracle `C12.driver.memcopy-flush-last`). -/
+theorem memcopy_completes_full_refuted : ¬ memcopy_completes_full := by
+  intro h
+  have := h 2 1 [.flush, .copy, .flush] (by decide) (by decide)
+  exact absurd this (by decide)
+
+/-- **Partial (what holds).** If the LAST response is a copy response, the command is dequeued. -/
+theorem memcopy_completes_partial (nf nc : Nat) (pre : List RKind) (h : validOrder nf nc (pre ++ [.copy])) :
+    (run nf nc (pre ++ [.copy])).queued = false := by
+  obtain ⟨hf, hc⟩ := h
+  simp only [List.count_append, List.count_cons_self, List.count_nil] at hf hc
+  have hf' : pre.count .flush = nf := by simpa [List.count_cons] using hf
+  obtain ⟨h1, h2⟩ := run_counts pre { f := nf, c := nc }
+  simp only [run, List.foldl_append, List.foldl_cons, List.foldl_nil, deliver]
+  rw [h1, h2]
+  simp only [hf']
+  have : nc - pre.count .copy - 1 = 0 := by omega
+  simp [this]
+
+/-- **Exactly when it fails.** If the last response is a flush response, the command stays queued. -/
+theorem memcopy_stuck_when_flush_last (nf nc : Nat) (pre : List RKind) (h : validOrder nf nc (pre ++ [.flush])) :
+    (run nf nc (pre ++ [.flush])).queued = true := by
+  obtain ⟨hf, _⟩ := h
+  simp only [List.count_append, List.count_cons_self, List.count_nil] at hf
+  simp only [run, List.foldl_append, List.foldl_cons, List.foldl_nil, deliver]
+  exact stays_queued pre { f := nf, c := nc } (by simp only; omega) rfl
+
+example : validOrder 2 1 [.flush, .flush, .copy] ∧ (run 2 1 [.flush, .flush, .copy]).queued = false := by decide
+
+end Copy
+
 end W
+
 end C12
